@@ -39,7 +39,7 @@ func TestTqvWitness(t *testing.T) {
 	out := map[string]interface{}{
 		"obligation": "cmds/server/loader/json.JSON.Unmarshal/pre@encoding/json.Unmarshal#1.1",
 		"scenario":   "load A (admin with permit *), then B (guest), compare with a fresh loader given B",
-		"error_B": fmt.Sprint(errB), "guest_commands_after_reload": ncmd, "users_after_reload": len(got.Users),
+		"error_B":    fmt.Sprint(errB), "guest_commands_after_reload": ncmd, "users_after_reload": len(got.Users),
 		"violated": !reflect.DeepEqual(got, want),
 	}
 	b, _ := stdjson.Marshal(out)
